@@ -295,6 +295,73 @@ def wireall_oracle(ep, outs):
     return ["accepted configuration runs with %s = %s instead of %d (%s)" % (names[k], e.get(k), w, ep[0]) for k, w in want.items() if str(w) != e.get(k)]
 
 
+# header names for the identifier features: everything RFC 7230 allows in a field name is legal; anything else cannot be
+# carried in an HTTP message at all (net/http refuses to send it: every proxied request would answer 502)
+HDR_LEGAL = ["X-Request-ID", "X.Req.Id", "a", "X_1", "t!#$%&'*+^`|~9", "x-b3.traceid", "  X-Padded  ", ""]
+HDR_ILLEGAL = ["X Request ID", "X:Y", "Ünï-Id", "a\tb", "(x)", "a/b", "x@y", "X-${NAME}", "\"q\"", "x,y", "[id]", "a=b", "a\u00a0b"]
+
+
+def serve_episodes(ctx, names_only=False):
+    eps = []
+    i = 0
+    for name in HDR_LEGAL + HDR_ILLEGAL:
+        for feat in ("request_id", "trace"):
+            for on in (True, False):
+                path = ctx.path("serve_%d.yaml" % i)
+                i += 1
+                yq = '"' + name.replace("\\", "\\\\").replace('"', '\\"') + '"' if "\\" not in name else '"' + name + '"'
+                with open(path, "w", encoding="utf-8") as f:
+                    f.write("server:\n  port: 8080\nbackends:\n  - name: b0\n    address: \"@BACKEND@\"\n"
+                            "load_balancer:\n  strategy: round_robin\nlogging:\n  %s:\n    enabled: %s\n    header: %s\n"
+                            % (feat, "true" if on else "false", yq))
+                legal = name in HDR_LEGAL
+                eps.append(["cfgserve %s %s:%s:%s" % (path, feat, "on" if on else "off", "legal" if legal else "illegal")])
+    if names_only:
+        return eps
+    # the ancillary servers: every metrics path validation accepts must be served, next to the server's own /health
+    for mp in ["/metrics", "/", "/m", "/stats/", "/metrics/x", "/healthz", "/health/"]:
+        for admin in (False, True):
+            path = ctx.path("serve_%d.yaml" % i)
+            i += 1
+            with open(path, "w", encoding="utf-8") as f:
+                f.write("server:\n  port: 8080\nbackends:\n  - name: b0\n    address: \"@BACKEND@\"\n"
+                        "load_balancer:\n  strategy: round_robin\nmetrics:\n  enabled: true\n  port: @MPORT@\n%s"
+                        % ("  path: \"%s\"\n" % mp if mp else ""))
+                if admin:
+                    f.write("admin_api:\n  enabled: true\n  port: @APORT@\n  auth_token: \"t\"\n")
+            eps.append(["cfgserve %s side:%s:legal" % (path, "admin" if admin else "plain")])
+    return eps
+
+
+def serve_oracle(ep, outs):
+    """An accepted configuration either starts a working proxy or fails with a clear error."""
+    o = outs[0] if outs else ""
+    w = ep[0].split()
+    if w[0] != "cfgserve" or len(w) != 3:
+        return []
+    feat, on, legal = w[2].split(":")
+    if "PANIC" in o:
+        return ["start-up panicked: %s" % o]
+    if o.startswith("load=err"):
+        return ["a configuration that meets every documented constraint is rejected: %s (%s)" % (o, w[2])]
+    if o.startswith("load=ok start=err:"):
+        msg = o[len("load=ok start=err:"):]
+        if legal == "legal" or on == "off":
+            return ["a configuration with a usable %s header does not start: %s" % (feat, o)]
+        return [] if len(msg) > 10 and "header" in msg.lower() else ["start-up fails without a clear error: %r" % msg]
+    if o.startswith("load=ok start=ok"):
+        for part in o.split():
+            k, _, v = part.partition("=")
+            if k in ("metrics", "mhealth", "admin") and v not in ("200", "unreachable"):
+                return ["accepted configuration starts, but its %s endpoint answers %s: %s" % (k, v, o)]
+        if "serve=200" not in o:
+            return ["accepted configuration (%s) starts a proxy that does not serve: %s" % (w[2], o)]
+        if on == "on" and ("no-request-id" in o or "no-trace-id" in o):
+            return ["identifier feature enabled (%s) but the response carries no identifier: %s" % (w[2], o)]
+        return []
+    return ["unexpected answer %r" % o]
+
+
 def check(ctx):
     ctx.assumptions += [
         "gopkg.in/yaml.v3 decoding is trusted; the model validates the decoded structure (fields given to the model alongside the YAML text)",
@@ -328,6 +395,8 @@ def check(ctx):
         want = "eff r=%d w=%d i=%d" % ((r or 15) * 10**9, (w or 15) * 10**9, (i or 60) * 10**9)
         return [] if o == want else ["front server runs with %s, configured %s" % (o, want)]
     d.check(srv_eps, oracle=srv_oracle, label="server-wiring")
+    # accepted and started means serving: one request through the started handler, per identifier-header spelling
+    d.check_oracle_only(serve_episodes(ctx), serve_oracle, "serve")
     from . import c10
     d.check([["startup debug"], ["startup info"], ["startup -"], ["startup warn"], ["startup error"]], oracle=c10.startup_oracle, label="startup")
     # what LoadConfig returns is what the file says (values, order, entries, files of any length)
